@@ -229,6 +229,22 @@ def run(ctx):
             bad = oracles(source, four, file_rows, ob)
             if bad:
                 ctx.violation('aligned:' + source, 'observation (%s, %d columns): %s' % (source, 4 if four else 3, bad), replay=rp)
+            # another reduction of the same channels, loaded in the same process: identical wavelengths, other bin widths
+            # (half as wide; for a 3-column table, a 4-column one). Its binner must be ITS binner.
+            if i < 6 or rng.random() < 0.3:
+                if four:
+                    alt = [list(r[:3]) + [r[3] * 0.5] for r in file_rows]
+                else:
+                    alt = [list(r[:3]) + [0.1 * r[0]] for r in file_rows]      # a tenth of the wavelength: always brackets
+                ctx.count('second_reduction_same_channels')
+                try:
+                    ob3 = observe(load_impl(source, alt, tmpdir, 'c'))
+                    bad = oracles(source, True, alt, ob3)
+                except Exception as e:
+                    bad = 'loading raised %r' % (e,)
+                if bad:
+                    ctx.violation('aligned-second:' + source, 'a second observation with the same wavelengths and other bin '
+                                  'widths, loaded after the first (%s): %s' % (source, bad), replay=dict(rp, second=alt))
             lit = C.clist([C.qlist(r + ([0.0] if not four else [])) for r in file_rows])
             if source == 'hdf5':
                 exprs.append('run_load_taurex %s' % lit)
